@@ -124,6 +124,22 @@ def run(pid):
             kind = e.get("kind", "")
             sig = "%s rule=%s kind=%s reader=%s" % (pid, rule, kind if kind in ("flip", "cut") else "class:" + kind, e.get("reader", ""))
             v.violation(sig, "rule %s fails: %s ; %s" % (rule, json.dumps(slim), detail[:300]), {"trace": tp_, "event": slim, "bytes": e.get("bytes")})
+    # ---- the residual reader alone over hand-made partition headers (no checksum in the way): a predictor order that exceeds the
+    # partition length must be refused, whatever the bytes that follow look like (PartitionLayout.RfcLayout)
+    rp = os.path.join(wd, "trace_rawres.ndjson")
+    rawn = run_drive("residuals", {"out": rp, "raw_max_bs": 40 if t == "quick" else 160, "sizes": [], "maxpos": []}, wd, tag="rawres")["runs"]
+    trc = write_text(os.path.join(wd, "Trace_Residuals.cfg"), "CONSTANTS\n MaxBs = 0\n MaxOrder = 0\n MaxPoOpt = 0\n MaxPartitions = 64\n Defects = {}\n"
+                     "SPECIFICATION Spec\nPOSTCONDITION Post\nCHECK_DEADLOCK FALSE\n")
+    tr = tlc_trace(os.path.join(SPEC, "Trace_Residuals.tla"), trc, rp, wd)
+    rawrecs = None
+    for ln in tr["rejects"]:
+        m = re.match(r'<<"REJECT", (\d+), (\d+), "([^"]*)", (.*)>>$', ln, re.S)
+        rawrecs = rawrecs or read_ndjson(rp)
+        e = rawrecs[int(m.group(2)) - 1]
+        v.violation("%s rule=%s" % (pid, m.group(3)), "rule %s fails for the residual reader on block %d, predictor order %d, partition order %d: %s" % (
+            m.group(3), e["bs"], e["order"], e["po"], json.dumps(e)), {"event": e})
+    for ln in tr["drifts"][:3]:
+        log("SPEC-DRIFT module=PartitionLayout " + ln[:200])
     rc = v.finish()
     write_evidence(pid, "fault_enumeration", {
         "evaluations": distinct, "distinct_nontrivial": distinct,
